@@ -154,7 +154,11 @@ def install_wrappers():
       step = ["doc", tok_action(actions.get_action_repr(action)), direct, None]
       _emit(step)
       if REC.fault:
-        REC.fault("doc-entry", step)
+        try:
+          REC.fault("doc-entry", step)
+        except BaseException:
+          step[3] = "fault-entry"     # nothing happened yet: stored/direct not appended
+          raise
       try:
         orig_do(self, action)
       except BaseException:
